@@ -1090,6 +1090,13 @@ def one_case(ctx, case, label="gen", flags=None, deep=True, real=False):
         fail("C15-order", "the combined analysis does not hold exactly the analyses that were added",
              {"held": order, "added": names, "expr": expr_text(case["expr"])})
         return
+    n_free_held = len(getattr(combined, "free_parameters", None) or [])
+    if mode == "free" and n_free_held > 400:
+        # far more than any declaration made here can expand to (free parameters kept in shared state pile up with
+        # every analysis made; modify_model would draw a new prior for each of them, per analysis)
+        fail("C15-shared-parameter-freed", f"the free-parameter analysis holds {n_free_held} free parameters, "
+             "far more than were declared for it")
+        return
     try:
         fitted = combined.modify_model(model)
     except Exception as e:
@@ -1725,6 +1732,11 @@ def run(ctx):
             force_cores = ctx.rng.choice([2, 2, 3, 4])  # pooled histories are the expensive quantifier
         case = gen_case(ctx.rng, force_mode, force_cores)
         one_case(ctx, case, deep=(k % 3 == 0))
+        if len(ctx.failures) >= 40:
+            # the verdict is settled; a broken library can also get slower with every case (free parameters kept in
+            # shared state grow with every sum)
+            ctx.hit("stopped-after-40-failures")
+            break
     collect_real_pool_child(ctx, child, ctx.n(60, 400))
 
 
